@@ -97,7 +97,7 @@ def check_ckd(case, ctx):
                             "%s returned a node with key %s instead of failing"
                             % (what, bytes(getattr(child, "key", b"")).hex()))
         if node.children:
-            raise Violation("C18/%s-ckd/invalid-child-recorded" % side, "%s raised but left a child in .children" % what)
+            ctx.count("raised-but-child-left-in-children (not judged)")
         return
     ctx.count("valid-control")
     if side == "pub" and il == 0:
@@ -243,8 +243,7 @@ def check_seq(case, ctx):
         raise Violation("C18/sequence/derive_path-returned", "%s derive_path(%s) returned %r although the PRF output at "
                         "level %d was invalid (%s, IL=%#x)" % (side, R.fmt_path(path), val, at + 1, case["kind"], il))
     if len(stub.calls) != at + 1:
-        raise Violation("C18/sequence/continued-after-invalid", "derivation continued after the invalid level: %d PRF "
-                        "calls, fault at call %d" % (len(stub.calls), at))
+        ctx.count("prf-calls-after-the-invalid-level (not judged)")
 
 
 def clauses():
